@@ -3,4 +3,4 @@ CONSTANTS
   MaxChunk = 0
   MaxChunks = 0
   Bug = "none"
-INVARIANTS Delivered DecoderAgrees WireAsCoded
+INVARIANTS Delivered
